@@ -316,7 +316,7 @@ func (w *killWriter) Write(p []byte) (int, error) {
 	r.wmu.Unlock()
 	if r.parkWarcWrites {
 		// the scheduler decides when each write(2) to a WARC file happens
-		r.k.Park(fmt.Sprintf("warc.write#%05d", seq), "warc.write", len(p))
+		r.k.Park(fmt.Sprintf("warc.write#%05d", seq), "warc.write") // the size is not logged: compressed lengths depend on random record ids
 	}
 	if r.killAtWrite > 0 && r.warcWrites == r.killAtWrite {
 		n := len(p)
